@@ -351,6 +351,27 @@ func genCase(t *rapid.T) Case {
 		text = strings.Replace(text, "[", "[ "+rapid.SampledFrom([]string{"1e5", "{}", "[1]", "01", "1.", "tru", "\"a"}).Draw(t, "bad")+", ", 1)
 	case 6:
 		text = gen.Mutate(t, text, []string{"[", "]", ",", "\"", "/", "*", "1", " ", "\n", "e"})
+	case 7, 8:
+		// an annotation without a text, at any place where an annotation may stand
+		var at []int
+		for i := 0; i < len(text); i++ {
+			if text[i] == ',' || text[i] == '[' || text[i] == ']' {
+				at = append(at, i, i+1)
+			}
+		}
+		if len(at) > 0 && !strings.Contains(text, "//") && !strings.Contains(text, "/*") {
+			n := rapid.IntRange(1, 2).Draw(t, "empties")
+			for ; n > 0; n-- {
+				i := rapid.SampledFrom(at).Draw(t, "emptyat")
+				e := rapid.SampledFrom([]string{"/**/", "/* */", "/*\n*/", " /*\t*/ ", "/**/ /* y */"}).Draw(t, "empty")
+				text = text[:i] + e + text[i:]
+				for k := range at {
+					if at[k] >= i {
+						at[k] += len(e)
+					}
+				}
+			}
+		}
 	}
 	exs := append([]string{}, items...)
 	exs = append(exs, rapid.SliceOfN(rapid.SampledFrom(probes), 1, 3).Draw(t, "probes")...)
